@@ -38,6 +38,13 @@ class Impl:
 
     def mk_operand(self, kind, lv):
         operand, RN = self.operand, self.encoding.RegisterName
+        w = getattr(self, "int_wrapper", None)
+        if w is not None:   # values handed over as integer-like objects (numpy integers, __index__ classes)
+            lv = [lv[0] if kind in ("KReg",) else w(lv[0])] + [w(x) for x in lv[1:]]
+            if kind in ("KEntry", "KSlice"):
+                lv[1] = int(lv[1])
+                if kind == "KSlice":
+                    lv[3] = int(lv[3])
         if kind == "KReg":
             return operand.Register(RN(lv[0]), lv[1])
         if kind == "KImm":
